@@ -233,6 +233,7 @@ fn run_one(ctx: &RunCtx, max_len: usize, bounded: bool) -> RunOut {
         marks.push((s, lo, hi, l0, l1));
     }
     let log = h.log();
+    LAST_LOG.with(|l| *l.borrow_mut() = (log.clone(), cup, bad_url));
     let (history, initial) = {
         let g = h.ex().w.lock().unwrap();
         (g.store.history.clone(), std::collections::BTreeMap::new())
@@ -573,6 +574,24 @@ fn run_oneshot(ctx: &RunCtx) -> RunOut {
     let exp_poll = if class == Step::InstalledRetryAfter { None } else { None };
     if state.poll != exp_poll {
         return out.fail("committed poll interval wrong after a one-shot check", format!("{:?}", state.poll));
+    }
+    out
+}
+
+thread_local! {
+    /// log (and CUP flag) of the most recent history executed by `run_one` on this thread
+    static LAST_LOG: std::cell::RefCell<(Vec<Obs>, bool, bool)> = const { std::cell::RefCell::new((Vec::new(), false, false)) };
+}
+
+/// The history exploration of this module judged by another property's oracle on the same log
+/// (arguments: log, CUP configured, unusable service URL configured). Own verdicts are dropped.
+pub fn run_judged_by(ctx: &RunCtx, max_len: usize, bounded: bool, judge: &dyn Fn(&[Obs], bool, bool) -> V<()>) -> RunOut {
+    let mut out = run_filtered(ctx, max_len, bounded, &["driver problem"]);
+    if out.violation.is_none() {
+        let (log, cup, bad_url) = LAST_LOG.with(|l| l.borrow().clone());
+        if let Err((k, m)) = judge(&log, cup, bad_url) {
+            out = out.fail(k, m);
+        }
     }
     out
 }
